@@ -372,9 +372,11 @@ T_LAZY_TAG = '''
 is_big = amount > 9001
 
 [G]
+let: refs = field.nope
 match: contains("@P1")
 category: Shopping
-tags: st, {(r.label for r in orders if r.amount == amount)}, {[r.item for r in orders if r.nope == 1]}, {next(r.item for r in orders if r.amount > 9003)}, {(r.item for r in orders if r.amount < amount)}
+field: things = (r for r in refs)
+tags: st, {(r.item for r in refs)}, {(r.label for r in orders if r.amount == amount)}, {[r.item for r in orders if r.nope == 1]}, {next(r.item for r in orders if r.amount > 9003)}, {(r.item for r in orders if r.amount < amount)}
 
 [Skipped]
 match: (is_big := amount > 9002) and field.nope == "x"
@@ -435,7 +437,7 @@ def obligations(tier, seed):
     obs.append(Obligation(id='sequence-same-engine', factory='sequence_same_engine', timeout=to, group='item independence',
                           bounds='two transactions on one engine; field value <= 1 char each; the rule has no value when no supplemental row matches'))
     for via in ['engine', 'normalize']:
-        obs.append(Obligation(id=f'lazy-tag-{via}', factory='lazy_tag', params={'via': via}, timeout=170 if q else 600, group='failing variable / let / field / tag',
+        obs.append(Obligation(id=f'lazy-tag-{via}', factory='lazy_tag', params={'via': via}, timeout=250 if q else 600, group='failing variable / let / field / tag',
                               bounds=f'3 rules through {via}: generator / list / next() dynamic tags over 3 supplemental rows lacking the columns they read, a := rule that fails after binding; description <= 2, pattern <= 1, integer amount / thresholds / row amount symbolic'))
     for pos in POSITIONS:
         obs.append(Obligation(id=f'position-{pos}', factory='position', params={'pos': pos}, timeout=to, group='failing variable / let / field / tag',
